@@ -47,7 +47,7 @@ PARTIAL = {
  "C02": ("Coq theorems: the receive window only advances over slots without undelivered data (a stored Reliable packet is never skipped by the receiver), sync frames are due whenever something is unacknowledged, the rate floor holds on expiry. End-to-end ordering w.r.t. submission order and bounded-time delivery are decided by the reliable-order and stall oracles on faulty / blackout / long loss-free streams: PARTIAL.", "DESIGN.md §5 C02"),
  "C05": ("Coq theorems: sender ids follow submission order, only stale TimeSensitive packets are dropped at the sender, payload partition. The end-to-end equality of delivered and submitted sequences on an ideal network is decided by the ideal stream with global-order and completion oracles: PARTIAL.", "DESIGN.md §5 C05"),
  "C11": ("Coq theorems on the recovery mechanisms: sync frames due, frame-window resynchronisation accepts any point within a window, rate floor on expiry, acknowledgements release window space. End-to-end recovery after blackouts is decided by the blackout/live streams with the stall oracle: PARTIAL.", "DESIGN.md §5 C11"),
- "C03": ("Coq theorems for ALL inputs: frame reader total, PacketSender::acknowledge total for any id, rate-controller step total from any reachable state, receiver slot indices in range for any datagram stream; and for the HalfConnection as a whole, by an invariant over the frame log, transfer window, reorder buffer and send window proved for ALL sequences of send/receive/step/flush/frame operations: handling ANY frame from ANY reachable state returns normally (C03_frame_never_panics). Termination of the flush emit loops within their fuel, panic-freedom of step()/flush() themselves and the Client/Server composition are NOT proved; they are decided on debug AND release builds (hang watchdog) by hostile/pair/tx/rate streams, and every modelled panic site and loop bound is explicit in the model the code is compared with: PARTIAL.", "DESIGN.md §5 C03"),
+ "C03": ("Coq theorems for ALL inputs: frame reader total, PacketSender::acknowledge total for any id, rate-controller step total, receiver slot indices in range; and for the HalfConnection as a whole (C03_half_connection_total): by an invariant over the frame log, transfer window, reorder buffer, send window, rate controller and loss intervals proved for ALL sequences of send/receive/step/flush/frame operations, EVERY such operation from EVERY reachable state returns normally — no panic site is reached and every loop (incl. the four emit loops of flush, by a potential argument) ends within its fuel. The Client/Server composition around it (event heap, address table) is NOT proved; it is decided on debug AND release builds (hang watchdog) by hostile/pair/tx/rate/lifecycle streams, and every modelled panic site and loop bound is explicit in the model the code is compared with: PARTIAL.", "DESIGN.md §5 C03"),
 }
 for k, (text, ref) in PARTIAL.items():
     CLAIMED[k] = dict(text=text, note=TRUST, technique="Coq proof of the component theorems + model/implementation differential run + property oracle on the implementation (partial)", design=ref)
